@@ -89,7 +89,7 @@ def encPrim (types : List Elem) (enc : String) : Except String String :=
 /-- `is_constant_composite_element` -/
 def isConstElem (types : List Elem) : Elem → Bool
   | .type t => t.presence == .constant
-  | .ref _ ty _ =>
+  | .ref _ ty _ _ =>
     match lookup types ty with
     | some (.type t) => t.presence == .constant
     | _ => false
@@ -97,10 +97,10 @@ def isConstElem (types : List Elem) : Elem → Bool
 
 def Elem.offset : Elem → Option Nat
   | .type t => t.offset
-  | .composite _ o _ => o
-  | .ref _ _ o => o
-  | .enum _ _ o => o
-  | .set _ _ o => o
+  | .composite _ o _ _ => o
+  | .ref _ _ o _ => o
+  | .enum _ _ o _ _ => o
+  | .set _ _ o _ _ => o
 
 mutual
   /-- size and leaves (with absolute offsets from `base`) of one encoding -/
@@ -117,19 +117,19 @@ mutual
             let sz := ps * t.length
             .ok (sz, [{ path := path, off := base, size := sz, prim := t.prim, count := t.length,
                         kind := if t.length = 1 then "type" else "array" }])
-      | .enum _ enc _ => do
+      | .enum _ enc _ _ _ => do
         let p ← encPrim types enc
         let ps := (primSize? p).getD 0
         .ok (ps, [{ path := path, off := base, size := ps, prim := p, count := 1, kind := "enum" }])
-      | .set _ enc _ => do
+      | .set _ enc _ _ _ => do
         let p ← encPrim types enc
         let ps := (primSize? p).getD 0
         .ok (ps, [{ path := path, off := base, size := ps, prim := p, count := 1, kind := "set" }])
-      | .ref _ ty _ =>
+      | .ref _ ty _ _ =>
         match lookup types ty with
         | none => .error s!"encoding `{ty}` doesn't exist"
         | some target => elemLeaves types fuel path base target
-      | .composite _ _ elems => compLeaves types fuel path base 0 elems
+      | .composite _ _ elems _ => compLeaves types fuel path base 0 elems
   /-- `validate_encoding(composite)`: running offset over the elements -/
   def compLeaves (types : List Elem) : Nat → List String → Nat → Nat → List Elem → Except String (Nat × List NLeaf)
     | _, _, _, cur, [] => .ok (cur, [])
@@ -162,10 +162,10 @@ def actualPresence (types : List Elem) (f : FieldDef) : Except String Presence :
   else match lookup types f.type with
     | none => .error s!"field type `{f.type}` doesn't exist"
     | some (.type t) => .ok t.presence
-    | some (.composite _ _ _) => .ok f.presence
-    | some (.enum _ _ _) => .ok (if f.presence == .optional then .required else f.presence)
-    | some (.set _ _ _) => .ok .required
-    | some (.ref _ _ _) => .error "ref at top level"
+    | some (.composite _ _ _ _) => .ok f.presence
+    | some (.enum _ _ _ _ _) => .ok (if f.presence == .optional then .required else f.presence)
+    | some (.set _ _ _ _ _) => .ok .required
+    | some (.ref _ _ _ _) => .error "ref at top level"
 
 /-- `validate_members` field loop: offsets and leaves of the non-constant fields -/
 def fieldLeaves (types : List Elem) : Nat → List FieldDef → Except String (Nat × List NLeaf)
@@ -174,7 +174,7 @@ def fieldLeaves (types : List Elem) : Nat → List FieldDef → Except String (N
     let pres ← actualPresence types f
     if pres == .constant then
       match lookup types f.type with
-      | some (.composite _ _ _) => .error "composite field can't be a constant"
+      | some (.composite _ _ _ _) => .error "composite field can't be a constant"
       | _ => fieldLeaves types cur rest
     else
       let off ← (match f.offset with
@@ -197,7 +197,7 @@ def dimExtras (lv : List NLeaf) (nGroups nDatas : Nat) : List (Leaf × Nat) :=
 
 def resolveDim (types : List Elem) (dimType : String) (nGroups nDatas : Nat) : Except String NDim :=
   match lookup types dimType with
-  | some (.composite n _ elems) => do
+  | some (.composite n _ elems _) => do
     let (sz, lv) ← compLeaves types FUEL [] 0 0 elems
     match findLeaf lv "blockLength", findLeaf lv "numInGroup" with
     | some bl, some num =>
@@ -209,7 +209,7 @@ def resolveDim (types : List Elem) (dimType : String) (nGroups nDatas : Nat) : E
 
 def resolveData (types : List Elem) (d : DataDef) : Except String NData :=
   match lookup types d.type with
-  | some (.composite _ _ elems) => do
+  | some (.composite _ _ elems _) => do
     let (sz, lv) ← compLeaves types FUEL [] 0 0 elems
     match findLeaf lv "length", findLeaf lv "varData" with
     | some len, some vd =>
@@ -236,7 +236,7 @@ mutual
         | .error e => .error e
         | .ok rs => .ok (r :: rs)
   def resolveGroup (types : List Elem) : GroupDef → Except String NGroup
-    | .mk name _ dimType bl fields groups datas =>
+    | .mk name _ dimType bl fields groups datas _ =>
       match fieldLeaves types 0 fields with
       | .error e => .error e
       | .ok (computed, lv) =>
@@ -260,7 +260,7 @@ def resolveMessage (s : SchemaDef) (m : MessageDef) : Except String NMessage := 
   let gs ← resolveGroups s.types m.groups
   let ds ← m.datas.mapM (resolveData s.types)
   match lookup s.types s.headerType with
-  | some (.composite _ _ elems) =>
+  | some (.composite _ _ elems _) =>
     let (hsz, hlv) ← compLeaves s.types FUEL [] 0 0 elems
     .ok { name := m.name, id := m.id, hdrSize := hsz, hdrLeaves := hlv, level := .mk b lv gs ds }
   | _ => .error s!"message header encoding `{s.headerType}` doesn't exist or is not a composite"
